@@ -175,6 +175,23 @@ class ListObj:
     def __init__(self, segs=()):
         self.segs = list(segs)
 
+class LMap:
+    """a segment `[stage_n(... stage_1(x)) for x in src]` of a list, over a symbolic source list of unknown length.
+    A stage takes the value built so far for one element and returns the new value (it may mutate the object it
+    gets). The object is shared by every list (slice) that holds this segment, so that a loop over a slice that
+    edits the elements in place is seen through the original list too."""
+
+    def __init__(self, src, stages=()):
+        self.src = src                  # lean name of a `List Tree` variable
+        self.stages = list(stages)
+
+    def build(self, interp, elem):
+        v = elem
+        for st in self.stages:
+            v = st(v)
+        return v
+
+
 class MapList:
     """the values of a comprehension over a list with symbolic segments (strings only)"""
 
@@ -272,7 +289,7 @@ class Oracle:
         self.trace.append((desc, n, c))
         return c
 
-def explore(run, limit=4000):
+def explore(run, limit=600):
     """enumerate all paths of `run(oracle)`; returns [(trace, result)]"""
     paths = []
     prefix = []
@@ -293,6 +310,19 @@ def explore(run, limit=4000):
 # interpreter
 # ---------------------------------------------------------------------------------------------
 _SRC_CACHE = {}
+
+
+def _is_generator(node):
+    """does the function body contain a yield of its own (not inside a nested def / lambda)?"""
+    stack = list(node.body)
+    while stack:
+        n = stack.pop()
+        if isinstance(n, (ast.Yield, ast.YieldFrom)):
+            return True
+        if isinstance(n, (ast.FunctionDef, ast.Lambda, ast.ClassDef)):
+            continue
+        stack.extend(ast.iter_child_nodes(n))
+    return False
 
 def func_ast(fn):
     if fn not in _SRC_CACHE:
@@ -381,6 +411,14 @@ class Interp:
         if isinstance(v, SInt):
             raise Untranslatable("truth value of a symbolic integer")
         return bool(v)
+    def first_lazy(self, lst):
+        """make the first element of `lst` concrete if the list starts with a lazy segment: forks on the source"""
+        self.normalize_list(lst)
+        while lst.segs and lst.segs[0][0] in ("sym", "lmap"):
+            k, e = lst.segs[0]
+            self.list_case(e if k == "sym" else e.src)
+            self.normalize_list(lst)
+
     def list_case(self, name):
         """symbolic list variable: None if empty on this path, else (head Obj, tail name)"""
         key = ("list", name)
@@ -401,6 +439,16 @@ class Interp:
                     if kc is not None:
                         segs.append(("elem", kc[0]))
                         segs.append(("sym", kc[1]))
+                    changed = True
+                elif k == "lmap" and ("list", e.src) in self.known:
+                    kc = self.known[("list", e.src)]
+                    if kc is not None:
+                        if ("lmaphead", id(e)) not in self.known:
+                            self.known[("lmaphead", id(e))] = (e.build(self, kc[0]), LMap(kc[1], e.stages))
+                        hd, rest = self.known[("lmaphead", id(e))]
+                        rest.stages = e.stages      # stages added later through either name apply to both
+                        segs.append(("elem", hd))
+                        segs.append(("lmap", rest))
                     changed = True
                 else:
                     segs.append((k, e))
@@ -604,8 +652,10 @@ class Interp:
                 return SuperProxy(frame.owner, frame.self_obj)
             if f in (str, int, len):
                 return self.call_builtin(f, args, kwargs)
-            if f is tuple and len(args) == 1 and isinstance(args[0], ListObj):
+            if f in (tuple, list) and len(args) == 1 and isinstance(args[0], ListObj):
                 return ListObj(list(args[0].segs))
+            if f is list and len(args) == 1 and isinstance(args[0], list):
+                return ListObj([("elem", x) for x in args[0]])
             if f is tuple and len(args) == 1 and isinstance(args[0], list):
                 return ListObj([("elem", x) for x in args[0]])
             if f is zip and len(args) == 2:
@@ -745,6 +795,7 @@ class Interp:
                 for d in node.decorator_list):
             raise Untranslatable("decorated function %s" % fn.__name__)
         frame = Frame(fn, owner, self_obj)
+        frame.yields = ListObj([]) if _is_generator(node) else None
         self.bind(node, fn, frame, list(args), dict(kwargs))
         self.depth += 1
         if self.depth > 40:
@@ -752,10 +803,10 @@ class Interp:
         try:
             self.exec_block(node.body, frame)
         except _Return as r:
-            return r.value
+            return r.value if frame.yields is None else frame.yields
         finally:
             self.depth -= 1
-        return None
+        return frame.yields
     def bind(self, node, fn, frame, args, kwargs):
         a = node.args
         if a.posonlyargs or a.kwonlyargs:
@@ -806,6 +857,9 @@ class Interp:
         for s in stmts:
             self.exec_stmt(s, frame)
     def exec_stmt(self, s, frame):
+        self.steps = getattr(self, "steps", 0) + 1
+        if self.steps > 200000:
+            raise Untranslatable("step budget exhausted")
         if isinstance(s, ast.Expr):
             if isinstance(s.value, ast.Constant) and isinstance(s.value.value, str):
                 return      # docstring
@@ -827,16 +881,17 @@ class Interp:
             if s.orelse:
                 raise Untranslatable("for ... else")
             it = self.eval(s.iter, frame)
-            if isinstance(it, ListObj):
-                self.normalize_list(it)
-                if not all(k == "elem" for k, _ in it.segs):
-                    raise Untranslatable("loop over a list of unknown length")
-                it = [x for _, x in it.segs]
-            if not isinstance(it, list):
+            if isinstance(it, list):
+                it = ListObj([("elem", x) for x in it])
+            if not isinstance(it, ListObj):
                 raise Untranslatable("loop over %r" % (it,))
-            for x in it:
-                self.assign(s.target, x, frame)
-                self.exec_block(s.body, frame)
+            self.normalize_list(it)
+            for k, x in list(it.segs):
+                if k == "elem":
+                    self.assign(s.target, x, frame)
+                    self.exec_block(s.body, frame)
+                else:
+                    self.loop_lazy(s, frame, k, x)
         elif isinstance(s, ast.Pass):
             pass
         elif isinstance(s, ast.Assert):
@@ -873,6 +928,54 @@ class Interp:
                     raise
         else:
             raise Untranslatable("statement %s" % type(s).__name__)
+    def loop_lazy(self, s, frame, kind, seg):
+        """`for x in <segment of unknown length>: body`. The body is turned into a stage applied to every element:
+        inside a generator what it yields for one element becomes the element of a new lazy segment of the
+        generator's output; otherwise the body may only edit the element in place (the segment is shared)."""
+        if not isinstance(s.target, ast.Name):
+            raise Untranslatable("loop target over a list of unknown length")
+        tname = s.target.id
+        lm = seg if kind == "lmap" else None
+        src = seg.src if kind == "lmap" else seg
+        yields_in_body = any(isinstance(n, (ast.Yield, ast.YieldFrom)) for st in s.body for n in ast.walk(st))
+
+        def run_body(value):
+            saved = frame.yields
+            saved_locals = dict(frame.locals)
+            n0 = len(self.o.trace)
+            frame.yields = ListObj([]) if yields_in_body else saved
+            try:
+                frame.locals[tname] = value
+                self.exec_block(s.body, frame)
+                out = frame.yields
+            finally:
+                frame.yields = saved
+                frame.locals.clear()
+                frame.locals.update(saved_locals)
+            if len(self.o.trace) != n0:
+                raise Untranslatable("branching inside a loop over a list of unknown length")
+            return out
+        if yields_in_body:
+            if frame.yields is None:
+                raise Untranslatable("yield outside a generator")
+
+            def stage(value):
+                out = run_body(value)
+                self.normalize_list(out)
+                if len(out.segs) != 1 or out.segs[0][0] != "elem":
+                    raise Untranslatable("a loop body that does not yield exactly one value per element")
+                return out.segs[0][1]
+            prev = list(lm.stages) if lm is not None else []
+            frame.yields.segs.append(("lmap", LMap(src, prev + [stage])))
+        else:
+            if lm is None:
+                raise Untranslatable("in-place loop over the items of an input list of unknown length")
+
+            def stage(value):
+                run_body(value)
+                return value
+            lm.stages.append(stage)
+
     @staticmethod
     def as_load(t):
         import copy
@@ -886,6 +989,16 @@ class Interp:
             o = self.eval(t.value, frame)
             if not isinstance(o, Obj):
                 raise Untranslatable("attribute assignment on %r" % (o,))
+            if o.cls is not None:
+                for c in o.cls.__mro__:
+                    if t.attr in c.__dict__:
+                        raw = c.__dict__[t.attr]
+                        if isinstance(raw, property):
+                            if raw.fset is None:
+                                raise PyRaise(AttributeError)
+                            self.call_function(raw.fset, [o, v], {}, owner=c, self_obj=o)
+                            return
+                        break
             o.attrs[t.attr] = v
             o.written.add(t.attr)
         elif isinstance(t, ast.Subscript):
@@ -977,7 +1090,28 @@ class Interp:
             if isinstance(e.slice, ast.Slice):
                 lo = self.eval(e.slice.lower, frame) if e.slice.lower else None
                 hi = self.eval(e.slice.upper, frame) if e.slice.upper else None
-                if e.slice.step is not None or not isinstance(o, list):
+                if e.slice.step is not None:
+                    raise Untranslatable("slice with a step")
+                if isinstance(o, ListObj) and hi is None and isinstance(lo, int) and lo >= 0:
+                    # `xs[k:]`: the first k elements must be concrete: forks on the shape of a lazy head segment; the
+                    # original list is normalised in place, so the slice shares its (lazy) segments
+                    k = 0
+                    guard = 0
+                    while True:
+                        guard += 1
+                        if guard > 10000:
+                            raise Untranslatable("slicing does not terminate")
+                        self.normalize_list(o)
+                        if k >= len(o.segs):
+                            return ListObj([])
+                        if k == lo:
+                            return ListObj(list(o.segs[k:]))
+                        kind, x = o.segs[k]
+                        if kind == "elem":
+                            k += 1
+                        else:
+                            self.list_case(x if kind == "sym" else x.src)
+                if not isinstance(o, list):
                     raise Untranslatable("slice")
                 return o[lo:hi]
             i = self.eval(e.slice, frame)
@@ -1001,6 +1135,7 @@ class Interp:
                 if not isinstance(i, int) or i < 0:
                     raise Untranslatable("list index %r" % (i,))
                 k = 0
+                guard = 0
                 while True:
                     self.normalize_list(o)
                     if k >= len(o.segs):
@@ -1011,7 +1146,10 @@ class Interp:
                             return x
                         k += 1
                     else:
-                        self.list_case(x)     # forks; normalize_list then expands or drops the segment
+                        self.list_case(x.src if kind == "lmap" else x)   # forks; normalize_list then expands / drops it
+                    guard += 1
+                    if guard > 10000:
+                        raise Untranslatable("list indexing does not terminate")
             raise Untranslatable("subscript of %r" % (o,))
         if isinstance(e, ast.Call):
             f = self.eval(e.func, frame)
@@ -1117,6 +1255,21 @@ class Interp:
             return d
         if isinstance(e, ast.List) or isinstance(e, ast.Tuple):
             return ListObj([("elem", self.eval(x, frame)) for x in e.elts])
+        if isinstance(e, ast.Yield):
+            if frame.yields is None:
+                raise Untranslatable("yield outside a generator")
+            frame.yields.segs.append(("elem", self.eval(e.value, frame) if e.value is not None else None))
+            return None
+        if isinstance(e, ast.YieldFrom):
+            if frame.yields is None:
+                raise Untranslatable("yield from outside a generator")
+            v = self.eval(e.value, frame)
+            if isinstance(v, list):
+                v = ListObj([("elem", x) for x in v])
+            if not isinstance(v, ListObj):
+                raise Untranslatable("yield from %r" % (v,))
+            frame.yields.segs.extend(v.segs)
+            return None
         if isinstance(e, ast.JoinedStr):
             # only ever used to build exception messages here: kept opaque
             return "<formatted message>"
@@ -1163,6 +1316,9 @@ class Interp:
             if isinstance(b, dict) and isinstance(a, (str, int, bool)):
                 r = a in b
                 return (not r) if neg else r
+            if isinstance(b, (frozenset, set)) and (a is None or isinstance(a, (str, int, bool, type))):
+                r = a in b
+                return (not r) if neg else r
             if isinstance(a, str) and len(a) == 1 and isinstance(b, SStr):
                 t = "((%s).contains %s)" % (b.lean(), lean_char(a))
                 return SBool("(!%s)" % t) if neg else SBool(t)
@@ -1203,6 +1359,8 @@ def deep_dirty(interp, o):
             interp.normalize_list(v)
             if any(kind == "elem" and deep_dirty(interp, x) for kind, x in v.segs):
                 return True
+            if any(kind == "lmap" for kind, x in v.segs):
+                return True
             if v.segs != [("sym", o.pattern_vars[0][0])] if o.pattern_vars else False:
                 # an operand list whose shape was explored: rebuild it
                 if any(kind == "elem" for kind, _ in v.segs) and len(v.segs) != 1:
@@ -1242,7 +1400,15 @@ def emit_list(interp, lst):
             if cur:
                 chunks.append("[" + ", ".join(cur) + "]")
                 cur = []
-            chunks.append(x)
+            if kind == "lmap":
+                var = interp.fresh("c")
+                n0 = len(interp.o.trace)
+                val = x.build(interp, Obj(None, lean=var, lay="%s.lay" % var))
+                if len(interp.o.trace) != n0:
+                    raise Untranslatable("branching while building the element of a mapped list")
+                chunks.append("(%s.map fun %s => %s)" % (x.src, var, emit_value(interp, val, "tree")))
+            else:
+                chunks.append(x)
     if cur or not chunks:
         chunks.append("[" + ", ".join(cur) + "]")
     return chunks[0] if len(chunks) == 1 else "(" + " ++ ".join(chunks) + ")"
@@ -1849,4 +2015,82 @@ def translate_children(T):
                 out.append((name, cname, run_set.params, "Tree", build_tree(paths, 0, 1), None, len(paths)))
             except Untranslatable as e:
                 out.append((name, cname, None, "Tree", None, str(e), 0))
+    return out
+
+
+# ---------------------------------------------------------------------------------------------
+# visitor methods: the default transformer and the resolver of implicit operations, one step per class
+# ---------------------------------------------------------------------------------------------
+
+def _rec_visit(interp, obj, args, kwargs):
+    """`self.visit_iter(child, context=...)` on a child: by induction exactly one new item, `rec child`"""
+    child = args[0] if args else kwargs.get("node")
+    if not isinstance(child, Obj) or child.lean is None:
+        raise Untranslatable("visit_iter on something that is not an input item")
+    return ListObj([("elem", Obj(None, lean="(rec %s)" % child.lean, lay="(rec %s).lay" % child.lean))])
+
+
+def translate_visits(T, V, U):
+    """[(lean name, params, body | None, error | None, paths)]:
+    * `TreeTransformer.generic_visit(node, {})` for every concrete class (the default copy);
+    * `UnknownOperationResolver(resolve_to=K, add_head=h)`: `visit_unknown_operation`, `visit_and_operation`,
+      `visit_or_operation` for the three explicit targets.
+    The visit of a child (`visit_iter`) is the parameter `rec`; the result is the list of yielded items."""
+    out = []
+
+    def emit_items(it, res):
+        if isinstance(res, list):
+            res = ListObj([("elem", x) for x in res])
+        if not isinstance(res, ListObj):
+            raise Untranslatable("a visit method that does not yield items")
+        return emit_list(it, res)
+
+    def add(name, params, run):
+        try:
+            paths = explore(run)
+            out.append((name, ["(rec : Tree → Tree)"] + params(), build_tree(paths, 0, 1), None, len(paths)))
+        except Untranslatable as e:
+            out.append((name, None, None, str(e), 0))
+    for cname in PRINT_CLASSES:
+        holder = {}
+
+        def run(oracle, cname=cname, holder=holder):
+            it = Interp(oracle)
+            node, params = class_inputs(T, cname)
+            holder["p"] = params
+            me = Obj(V.TreeTransformer, lean="@self")
+            me.attrs["track_parents"] = False
+            me.attrs["track_new_parents"] = False
+            me.attrs["visit_iter"] = ("rechook", "visit_iter", me)
+            it.rec_hooks["visit_iter"] = _rec_visit
+            f = it.getattr_(me, "generic_visit", None)
+            try:
+                res = it.call(f, [node, {}], {}, None)
+            except PyRaise as e:
+                return emit_raise(e)
+            return "Except.ok %s" % emit_items(it, res)
+        add("copy_%s" % cname, lambda holder=holder: holder["p"], run)
+    targets = [("and", "AndOperation"), ("or", "OrOperation"), ("bool", "BoolOperation")]
+    for tname, tcls in targets:
+        for meth, cname in (("visit_unknown_operation", "UnknownOperation"), ("visit_and_operation", "AndOperation"),
+                            ("visit_or_operation", "OrOperation")):
+            holder = {}
+
+            def run(oracle, tcls=tcls, meth=meth, cname=cname, holder=holder):
+                it = Interp(oracle)
+                node, params = class_inputs(T, cname)
+                holder["p"] = params + ["(addHead : Str)"]
+                me = Obj(U.UnknownOperationResolver, lean="@self")
+                init = U.UnknownOperationResolver.__dict__["__init__"]
+                it.call_function(init, [me], {"resolve_to": getattr(T, tcls), "add_head": SStr.var("addHead")},
+                                 owner=U.UnknownOperationResolver, self_obj=me)
+                me.attrs["visit_iter"] = ("rechook", "visit_iter", me)
+                it.rec_hooks["visit_iter"] = _rec_visit
+                f = it.getattr_(me, meth, None)
+                try:
+                    res = it.call(f, [node, {"parents": ListObj([("sym", "ps")])}], {}, None)
+                except PyRaise as e:
+                    return emit_raise(e)
+                return "Except.ok %s" % emit_items(it, res)
+            add("resolve_%s_%s" % (tname, cname), lambda holder=holder: holder["p"], run)
     return out
